@@ -778,7 +778,7 @@ func runHistory(r *ev.Run, root, id string, sp *spec, hno int, bulkN int) {
 		c := rng.Intn(100)
 		t0, n0 := time.Now(), len(h.rec.Ops)
 		switch {
-		case c == 99 && canWipe && !h.bulk:
+		case c == 99 && canWipe && !h.bulk && rng.Intn(2) == 0: // about one op in 200
 			h.doWipe()
 		case c >= 97 && c <= 98 && canReadTx:
 			h.doReadTx()
